@@ -572,7 +572,7 @@ func (e *Engine) parseSpecFunc(s string, pkg *ssa.Package, path string) error {
 	return nil
 }
 
-// loadAllSpecs reads /verif/spec/*.gvs and every zz_contracts_verif.go in the repo.
+// loadAllSpecs reads /verif/spec/*.gvs and every zz_contracts*_verif.go in the repo.
 func (e *Engine) loadAllSpecs(specDir string) error {
 	e.tcProto = newTypeCtx()
 	files, _ := filepath.Glob(filepath.Join(specDir, "*.gvs"))
@@ -593,8 +593,9 @@ func (e *Engine) loadAllSpecs(specDir string) error {
 			continue
 		}
 		rel := strings.TrimPrefix(p.Pkg.Path(), "gitlab.com/gomidi/midi/v2")
-		f := filepath.Join(e.repo, "v2", rel, "zz_contracts_verif.go")
-		if _, err := os.Stat(f); err == nil {
+		cfs, _ := filepath.Glob(filepath.Join(e.repo, "v2", rel, "zz_contracts*_verif.go"))
+		sort.Strings(cfs)
+		for _, f := range cfs {
 			if err := e.loadSpecFile(f, p); err != nil {
 				return err
 			}
